@@ -160,8 +160,8 @@ theorem validateFields_replay (m : String) (fs : List FieldV) (s : Schema) (st :
           simp only
           cases created with
           | false =>
-            have := createField_not_created s _ _ s' hc
-            subst this
+            have e := createField_not_created s _ _ s' hc
+            rw [e]
             simpa using ih s st
           | true =>
             simp only [if_true]
@@ -296,7 +296,8 @@ theorem verdicts_new (b : List Point) (s : Schema) (k : FKey) (t : FType)
             left
             refine ⟨by simp [h2], ?_⟩
             rw [List.any_eq_true]
-            exact ⟨f, hf, by simp [h3, h4, h5]⟩
+            have h6 : k.2 ≠ timeName := by rw [← h3]; exact h5
+            exact ⟨f, hf, by simp [h3, h4, h6]⟩
         · exact Or.inr (hcons _ h1)
 
 /-- replaying the record of created fields reproduces the field set after the batch -/
